@@ -196,7 +196,7 @@ pub fn meta(id: &str, tier: &str) -> Meta {
     let (rule, goals): (&str, Vec<&'static str>) = match id {
         "C01" => ("every sequence of rounds (commit with by-value add/remove/psk/gce/custom/rekey, by-reference proposals, external commit with and without resync) up to the depth bound from every seed is executed on real members; after every accepted commit all members' (context, roster, exported tree, epoch authenticator, two exports) are compared through the epoch ledger and every ordered pair decrypts on forks; a distinct case = a distinct world shape (membership, tree skeleton, epochs, cached proposals)", vec!["commit-without-path", "tree-shrank", "tree-grew", "unmerged-leaf-under-parent", "interior-blank-leaf", "external-commit", "add-into-interior-blank"]),
         "C02" => ("same traversal; every HPKE seal recorded by the committer's provider while a commit is built must go to a key in the new tree's copath resolutions (reference parser) minus leaves added now, or to an added key package's init key; every message of every later round plus fresh application/proposal/commit traffic is offered to every retained ex-member state (processed its removal / never saw it) and every Welcome to every outsider: must be rejected; ex-members' authenticator/export compared with every later ledger entry; every commit that applies an Update, Remove, ExternalInit or GroupContextExtensions proposal, or none at all, must carry an update path (RFC 9420 12.4: otherwise the commit secret is zero and a removed member can derive the new epoch)", vec!["commit-with-path-secrets", "interior-blank-leaf", "commit-with-required-path"]),
-        "C07" => ("same traversal; every Welcome / external-commit joiner is ledger-compared with the members, its key package must still be stored before and be gone after its first write_to_storage (fork), and its first commit must be accepted by all (fork); plus (checks/c07x.rs) the mismatch matrix in 4 configurations -- Welcome for another party, tree of the previous epoch / of another group / with one bit altered / missing, Welcome of another group, altered Welcome, joiner without the key package that was used, the same Welcome after the joiner persisted, external commit from the previous epoch's GroupInfo: refused, joiner's three stores and the members unchanged, the right Welcome still works; a key package marked last-resort survives the joiner's write and serves a second group; the shipped in-memory and SQLite key-package stores answer like a map for every sequence of <= 4 (thorough 6) insert / get / delete operations over two ids -- and the re-join scenarios: every subset of 3 write points x 3 ways of leaving x 0..2 commits while away x re-entry by Welcome from two members or by external commit x 3 kinds of next commit (x retention x tree delivery in thorough), the same party keeping all three stores must join, persist, follow the next commit, persist, reload, send and commit", vec!["external-commit", "add-into-interior-blank", "matrix-refusal", "matrix-second-join-refused", "matrix-stale-groupinfo", "matrix-last-resort", "key-package-store-sequences", "rejoin-with-stale-records", "rejoin-without-stale-records"]),
+        "C07" => ("same traversal; every Welcome / external-commit joiner is ledger-compared with the members, its key package must still be stored before and be gone after its first write_to_storage (fork), and its first commit must be accepted by all (fork); plus (checks/c07x.rs) the mismatch matrix in 4 configurations -- Welcome for another party, tree of the previous epoch / of another group / with one bit altered / missing, Welcome of another group, altered Welcome, joiner without the key package that was used, the same Welcome after the joiner persisted (also when that first persist met a storage failure at each of its calls in turn and was retried: the key package must then be gone and the Welcome refused), external commit from the previous epoch's GroupInfo: refused, joiner's three stores and the members unchanged, the right Welcome still works; a key package marked last-resort survives the joiner's write and serves a second group; the shipped in-memory and SQLite key-package stores answer like a map for every sequence of <= 4 (thorough 6) insert / get / delete operations over two ids -- and the re-join scenarios: every subset of 3 write points x 3 ways of leaving x 0..2 commits while away x re-entry by Welcome from two members or by external commit x 3 kinds of next commit (x retention x tree delivery in thorough), the same party keeping all three stores must join, persist, follow the next commit, persist, reload, send and commit", vec!["external-commit", "add-into-interior-blank", "matrix-refusal", "matrix-second-join-refused", "matrix-first-persist-retried", "matrix-stale-groupinfo", "matrix-last-resort", "key-package-store-sequences", "rejoin-with-stale-records", "rejoin-without-stale-records"]),
         "C08" => ("same traversal; after every commit every member's own exported tree is parsed by the independent reference parser: tree hash from scratch == GroupContext.tree_hash, parent-hash chains valid (reference implementation of RFC 9420 7.9.2), unmerged lists sorted/consistent, no trailing blank, unique keys, new leaves leftmost; one copy per round is validated by a fresh ExternalClient::observe_group", vec!["tree-shrank", "tree-grew", "unmerged-leaf-under-parent", "interior-blank-leaf", "add-into-interior-blank"]),
         "C04" => ("history traversal (one level less deep than C01); in every reached state and for every member: one mutant per framing region (first/last/middle byte bit flips, truncations at field boundaries) of every genuine message deliverable to it (application, proposal, commit, commit with add; public and private wire formats), previous-epoch messages, commits referencing a proposal / PSK / identity the member cannot resolve, and six operations the member fails to build; every storage call made while processing each genuine message fails once (provider error); with an own Update outstanding and an own commit pending, apply_pending_commit and the echo of the own commit with every storage call failing once; each on a fork: Err => complete state (hook H1, effective view) unchanged, genuine message afterwards => state equal to a twin's, next send accepted by a peer", vec!["commit-with-unknown-proposal-ref", "psk-commit-m-lacks-psk", "commit-identity-rejected-by-m", "late-failure-at-confirmation-tag", "storage-fault-while-processing", "storage-fault-in-local-operation"]),
         "C16" => ("history traversal with public handshake messages and an ExternalSendersExt in the group context; observers are created with ExternalClient::observe_group at every epoch with max_epoch_jitter in {unset, 0, 1, epoch-1, epoch, epoch+1, u64::MAX}; every commit/proposal the members accept is given to every observer (must be accepted; context, roster and exported tree must then equal the members'), every second observer is replaced by snapshot -> load_group after every commit and every third one after every proposal (while it holds cached proposals), re-init commits are part of the alphabet, a copy of every commit with one signature bit flipped and a replay of every commit must be refused, an observer created after a proposal was sent must refuse the commit that references it, application ciphertexts of the last 5 epochs are offered to every observer (let through iff epoch >= current - jitter, saturating; never a panic), the oldest observer issues external Remove / Add proposals that members must accept and commit, an outsider sends new-member Add proposals (Client::external_add_proposal), and one observer built with cache_proposals(false) keeps every reported proposal outside as ProposalMessageDescription::cached_proposal().to_bytes() and re-inserts it with insert_proposal before the next commit, which it must then follow", vec!["observer-reloaded", "observer-reloaded-with-cached-proposal", "external-sender-proposal", "observer-lacks-referenced-proposal", "new-member-proposal", "stateless-observer-follows-by-reference-commit"]),
